@@ -446,8 +446,170 @@ def run_resetbetween(case):
     return {"lines": lines, "features": ["reset-between"], "nontrivial": "resetbetween-%d-%s" % (case["resets"], case["sync"])}
 
 
+def run_longloop(case):
+    """C03 (termination 'far beyond the interpreter's recursion limit'): ONE task that yields already computed futures
+    n times in a row (a loop over cache hits), and a chain of n tasks each awaiting the next, run under the interpreter's
+    DEFAULT recursion limit (the core interpreter itself needs a raised one for deep programs, which would hide a
+    scheduler that recurses once per yield).  Direct expectation: normal termination, one resumption per yield."""
+    import sys
+    import asynq
+    n = case["n"]
+    resumed = [0, 0]
+
+    @asynq.asynq()
+    def one():
+        return 1
+
+    @asynq.asynq()
+    def loop_task(shared):
+        total = 0
+        for _ in range(n):
+            total += yield shared
+            resumed[0] += 1
+        return total
+
+    @asynq.asynq()
+    def loop_const():
+        total = 0
+        for _ in range(n):
+            total += yield asynq.ConstFuture(1)
+            resumed[1] += 1
+        return total
+
+    @asynq.asynq()
+    def chain(k):
+        if k == 0:
+            return 0
+        return 1 + (yield chain.asynq(k - 1))
+
+    @asynq.asynq()
+    def root():
+        shared = one.asynq()
+        yield shared
+        a, b, c = yield loop_task.asynq(shared), loop_const.asynq(), chain.asynq(n)
+        return (a, b, c)
+
+    old = sys.getrecursionlimit()
+    sys.setrecursionlimit(1000)
+    asynq.scheduler.reset()
+    try:
+        try:
+            out = "ok" if root() == (n, n, n) else "wrong-value"
+        except BaseException as e:
+            out = "raised-" + type(e).__name__
+    finally:
+        sys.setrecursionlimit(old)
+    asynq.scheduler.reset()
+    lines = ["(case longloop %d %d)" % (case["id"], n), "(result %s %d %d)" % (out, resumed[0], resumed[1]), "(end)"]
+    return {"lines": lines, "features": ["longloop"], "nontrivial": "longloop-%d" % n}
+
+
+EXOTIC_SHAPES = ["bare", "tuple1", "tuple2", "tuple3", "tuple5", "list3", "dict3", "nested"]
+EXOTIC_ERRS = ["Exception", "StopIteration", "StopAsyncIteration", "GeneratorExit", "KeyboardInterrupt", "SystemExit", "falsy"]
+EXOTIC_SRC = ["errfut", "lazy", "task"]
+
+
+def run_exotic(case):
+    """C02 (delivery at the yield): a task awaits a structure (every container shape the unwrap code special-cases)
+    in which one future failed with an error of an exotic class (StopIteration, GeneratorExit, KeyboardInterrupt, a falsy
+    one ...): the VERY error object is raised at the yield (identity), the task can catch it and go on, and when every
+    future succeeded the structure of values arrives with the same shape.  (CPython's special treatment of these
+    classes inside generators is not in the machine's language; direct expectation.)"""
+    import asynq
+    shape, ename, src, pos = case["shape"], case["err"], case["src"], case["pos"]
+
+    class Falsy(Exception):
+        def __len__(self):
+            return 0
+
+    class MyStop(StopIteration):
+        pass
+
+    cls = {"Exception": ValueError, "StopIteration": MyStop, "StopAsyncIteration": StopAsyncIteration, "GeneratorExit": GeneratorExit,
+           "KeyboardInterrupt": KeyboardInterrupt, "SystemExit": SystemExit, "falsy": Falsy}[ename]
+    err = cls("exotic")
+
+    def raiser():
+        raise err
+
+    @asynq.asynq()
+    def failing_task():
+        if ename in ("StopIteration", "StopAsyncIteration"):
+            # (a generator cannot fail with StopIteration itself: CPython turns it into RuntimeError; use the
+            # outside-completion path instead: somebody sets the error on the task)
+            asynq.scheduler.get_active_task().set_error(err)
+            return None
+        raise err
+        yield
+
+    def failing():
+        if src == "errfut":
+            return asynq.ErrorFuture(err)
+        if src == "lazy":
+            return asynq.Future(raiser)
+        return failing_task.asynq()
+
+    def build(fail):
+        n = {"bare": 1, "tuple1": 1, "tuple2": 2, "tuple3": 3, "tuple5": 5, "list3": 3, "dict3": 3, "nested": 4}[shape]
+        p = pos % n
+        fs = [failing() if (fail and i == p) else asynq.ConstFuture(10 + i) for i in range(n)]
+        vals = [10 + i for i in range(n)]
+
+        def mk(xs):
+            if shape == "bare":
+                return xs[0]
+            if shape.startswith("tuple"):
+                return tuple(xs)
+            if shape == "list3":
+                return list(xs)
+            if shape == "dict3":
+                return {i: x for i, x in enumerate(xs)}
+            return (xs[0], [xs[1], {"k": (xs[2], xs[3], None)}], None)
+        return mk(fs), mk(vals)
+
+    log = []
+
+    @asynq.asynq()
+    def root():
+        ok_struct, ok_vals = build(False)
+        got = yield ok_struct
+        log.append("values-ok" if (got == ok_vals and type(got) is type(ok_vals)) else "values-wrong")
+        bad_struct, _ = build(True)
+        try:
+            yield bad_struct
+            log.append("no-error-raised")
+        except BaseException as e:
+            log.append("same-error" if e is err else "other-error-%s" % type(e).__name__)
+        got = yield ok_struct
+        log.append("values-ok" if got == ok_vals else "values-wrong")
+        return 7
+
+    asynq.scheduler.reset()
+    try:
+        out = "ok" if root() == 7 else "wrong-value"
+    except BaseException as e:
+        out = "raised-" + type(e).__name__
+    asynq.scheduler.reset()
+    lines = ["(case exotic %d)" % case["id"], "(result %s (%s))" % (out, " ".join(log)), "(end)"]
+    return {"lines": lines, "features": ["exotic-" + ename, "shape-" + shape], "nontrivial": "exotic-%s-%s-%s-%d" % (shape, ename, src, pos)}
+
+
+def exotic_cases():
+    return [{"special": "exotic", "shape": sh, "err": e, "src": src, "pos": p} for sh in EXOTIC_SHAPES for e in EXOTIC_ERRS
+            for src in EXOTIC_SRC
+            # a lazily computed Future stores only Exception subclasses (BaseExceptions of a provider keep their normal
+            # behaviour by design, futures.py), and a generator ending with a plain GeneratorExit counts as returning None
+            if not (src == "lazy" and e in ("GeneratorExit", "KeyboardInterrupt", "SystemExit"))
+            if not (src == "task" and e == "GeneratorExit")
+            for p in ((0,) if sh in ("bare", "tuple1") else (0, 1, 2) if sh != "tuple5" else (0, 2, 4))]
+
+
 def run_case_for(pid, case):
     from corerun import run_program
+    if case.get("special") == "exotic":
+        return run_exotic(case)
+    if case.get("special") == "longloop":
+        return run_longloop(case)
     if case.get("special") == "reflush":
         return run_reflush(case)
     if case.get("special") == "overlap":
